@@ -120,4 +120,46 @@ theorem infeasible_sound (m n : Nat) (votes : Nat → Nat → Rat) (rowT colT : 
     rw [hrow, hcol] at hlt
     omega
 
+/-- **Soundness of the list front end** `bipropCheckL` — the function the driver runs on every output of the real
+    evaluator (op `biprop_cert`): shapes agree and the seat matrix has the stated marginals, zero cells, positive
+    multipliers and roundings. -/
+theorem bipropCheckL_sound (q : Rat) (votes : Mat Rat) (rowT colT : List Nat) (x : Mat Nat) (ρ γ : List Rat)
+    (h : bipropCheckL q votes rowT colT x ρ γ = true) :
+    shapeOk votes rowT.length colT.length = true ∧ shapeOk x rowT.length colT.length = true ∧
+    (∀ i < rowT.length, (x.getD i []).sum = rowT.getD i 0) ∧
+    (∀ j < colT.length, (x.map (fun r => r.getD j 0)).sum = colT.getD j 0) ∧
+    (∀ i < rowT.length, ∀ j < colT.length, vget votes i j = 0 → mget x i j = 0) ∧
+    (∀ i < rowT.length, 0 < ρ.getD i 0) ∧ (∀ j < colT.length, 0 < γ.getD j 0) ∧
+    (∀ i < rowT.length, ∀ j < colT.length,
+      isRounding q (vget votes i j * ρ.getD i 0 * γ.getD j 0) (mget x i j)) := by
+  unfold bipropCheckL at h
+  simp only [Bool.and_eq_true] at h
+  obtain ⟨⟨⟨⟨hsv, hsx⟩, _⟩, _⟩, hchk⟩ := h
+  obtain ⟨hr, hc, hz, hρ, hγ, hcell⟩ := bipropCheck_sound _ _ _ _ _ _ _ _ _ hchk
+  refine ⟨hsv, hsx, ?_, ?_, hz, hρ, hγ, hcell⟩
+  · intro i hi
+    rw [← hr i hi, ← sumN_eq_sum, ← sumN_getD, shapeOk_row hsx hi]
+    rfl
+  · intro j hj
+    rw [← hc j hj, ← sumN_eq_sum, ← sumN_col, ((shapeOk_iff x _ _).mp hsx).1]
+
+/-- **Soundness of the list front end** `infeasibleCheckL` (op `infeasible_cert`): no seat matrix of the right shape
+    has these marginals and zeros where the votes are zero. -/
+theorem infeasibleCheckL_sound (votes : Mat Rat) (rowT colT S T : List Nat)
+    (h : infeasibleCheckL votes rowT colT S T = true) :
+    ¬ ∃ x : Mat Nat, shapeOk x rowT.length colT.length = true ∧
+      (∀ i < rowT.length, (x.getD i []).sum = rowT.getD i 0) ∧
+      (∀ j < colT.length, (x.map (fun r => r.getD j 0)).sum = colT.getD j 0) ∧
+      (∀ i < rowT.length, ∀ j < colT.length, vget votes i j = 0 → mget x i j = 0) := by
+  unfold infeasibleCheckL at h
+  simp only [Bool.and_eq_true] at h
+  rintro ⟨x, hsx, hr, hc, hz⟩
+  apply infeasible_sound _ _ _ _ _ _ _ h.2
+  refine ⟨mget x, ?_, ?_, hz⟩
+  · intro i hi
+    rw [← hr i hi, ← sumN_eq_sum, ← sumN_getD, shapeOk_row hsx hi]
+    rfl
+  · intro j hj
+    rw [← hc j hj, ← sumN_eq_sum, ← sumN_col, ((shapeOk_iff x _ _).mp hsx).1]
+
 end VL.C07
